@@ -49,6 +49,8 @@ def watchdog(seconds):
 # ---------------------------------------------------------------- line tracer
 TRACED = {"aio_submit": "scheduler/base.py", "aio_start": "scheduler/base.py", "aio_run": "commandline.py"}
 KILL = SPEC.get("kill")
+PAUSE = SPEC.get("pause")      # {n, funcs, until}: at the n-th executed line wait for a control file
+_pcount = [0]
 SIGS = {"KILL": signal.SIGKILL, "TERM": signal.SIGTERM, "INT": signal.SIGINT}
 _count = [0]
 _killed = [False]
@@ -93,6 +95,14 @@ def _local(frame, event, arg):
         counted = KILL is not None and fn in KILL["funcs"] and not _killed[0]
         if counted:
             _count[0] += 1
+        if PAUSE is not None and fn in PAUSE["funcs"]:
+            _pcount[0] += 1
+            if _pcount[0] == PAUSE["n"]:
+                ev(f"PAUSE {fn} {frame.f_lineno} {tag}")
+                tp = time.time()
+                while not (CTL / PAUSE["until"]).exists() and time.time() - tp < 25:
+                    time.sleep(0.002)
+                ev(f"RESUME {fn} {frame.f_lineno} {tag}")
         ev(f"L {fn} {frame.f_lineno} {tag} {extra}")
         if counted and _count[0] == KILL["n"]:
             _killed[0] = True
@@ -121,7 +131,7 @@ def main():
     watchdog(SPEC.get("maxlife", 90))
     import logging
     logging.disable(logging.CRITICAL)
-    if SPEC.get("trace") or KILL:
+    if SPEC.get("trace") or KILL or PAUSE:
         threading.settrace(_global)
         sys.settrace(_global)
     from experimaestro import experiment
